@@ -18,6 +18,7 @@ kind of value sits where), which is a property of the programs the writer emits,
 observes on every explored run that none of them occurs (the model would stop with a fault where Go
 returns a result).
 -/
+import RegexVerif.Props.C10Parser
 import RegexVerif.Lemmas.VM
 
 namespace RegexVerif.Props.C10
